@@ -809,7 +809,7 @@ crate::harnesses! {
 
     /// separator-position grammar, flags I (all components): strings len <= 5 over {0 7 _ . e}.
     /// @prop C13
-    /// @tier thorough
+    /// @tier deep
     /// @mem 9
     /// @feat format radix_format
     /// @bound format F_I; input length <= 5 over {0 7 _ . e}
@@ -830,7 +830,7 @@ crate::harnesses! {
 
     /// separator-position grammar, flags IC (all components): strings len <= 5 over {0 7 _ . e}.
     /// @prop C13
-    /// @tier thorough
+    /// @tier deep
     /// @mem 9
     /// @feat format radix_format
     /// @bound format F_IC; input length <= 5 over {0 7 _ . e}
@@ -851,7 +851,7 @@ crate::harnesses! {
 
     /// separator-position grammar, flags L (all components): strings len <= 5 over {0 7 _ . e}.
     /// @prop C13
-    /// @tier thorough
+    /// @tier deep
     /// @mem 9
     /// @feat format radix_format
     /// @bound format F_L; input length <= 5 over {0 7 _ . e}
@@ -872,7 +872,7 @@ crate::harnesses! {
 
     /// separator-position grammar, flags LC (all components): strings len <= 5 over {0 7 _ . e}.
     /// @prop C13
-    /// @tier thorough
+    /// @tier deep
     /// @mem 9
     /// @feat format radix_format
     /// @bound format F_LC; input length <= 5 over {0 7 _ . e}
@@ -893,7 +893,7 @@ crate::harnesses! {
 
     /// separator-position grammar, flags T (all components): strings len <= 5 over {0 7 _ . e}.
     /// @prop C13
-    /// @tier thorough
+    /// @tier deep
     /// @mem 9
     /// @feat format radix_format
     /// @bound format F_T; input length <= 5 over {0 7 _ . e}
@@ -914,7 +914,7 @@ crate::harnesses! {
 
     /// separator-position grammar, flags TC (all components): strings len <= 5 over {0 7 _ . e}.
     /// @prop C13
-    /// @tier thorough
+    /// @tier deep
     /// @mem 9
     /// @feat format radix_format
     /// @bound format F_TC; input length <= 5 over {0 7 _ . e}
@@ -935,7 +935,7 @@ crate::harnesses! {
 
     /// separator-position grammar, flags IL (all components): strings len <= 5 over {0 7 _ . e}.
     /// @prop C13
-    /// @tier thorough
+    /// @tier deep
     /// @mem 9
     /// @feat format radix_format
     /// @bound format F_IL; input length <= 5 over {0 7 _ . e}
@@ -956,7 +956,7 @@ crate::harnesses! {
 
     /// separator-position grammar, flags ILC (all components): strings len <= 5 over {0 7 _ . e}.
     /// @prop C13
-    /// @tier thorough
+    /// @tier deep
     /// @mem 9
     /// @feat format radix_format
     /// @bound format F_ILC; input length <= 5 over {0 7 _ . e}
@@ -977,7 +977,7 @@ crate::harnesses! {
 
     /// separator-position grammar, flags IT (all components): strings len <= 5 over {0 7 _ . e}.
     /// @prop C13
-    /// @tier thorough
+    /// @tier deep
     /// @mem 9
     /// @feat format radix_format
     /// @bound format F_IT; input length <= 5 over {0 7 _ . e}
@@ -998,7 +998,7 @@ crate::harnesses! {
 
     /// separator-position grammar, flags ITC (all components): strings len <= 5 over {0 7 _ . e}.
     /// @prop C13
-    /// @tier thorough
+    /// @tier deep
     /// @mem 9
     /// @feat format radix_format
     /// @bound format F_ITC; input length <= 5 over {0 7 _ . e}
@@ -1019,7 +1019,7 @@ crate::harnesses! {
 
     /// separator-position grammar, flags LT (all components): strings len <= 5 over {0 7 _ . e}.
     /// @prop C13
-    /// @tier thorough
+    /// @tier deep
     /// @mem 9
     /// @feat format radix_format
     /// @bound format F_LT; input length <= 5 over {0 7 _ . e}
@@ -1040,7 +1040,7 @@ crate::harnesses! {
 
     /// separator-position grammar, flags LTC (all components): strings len <= 5 over {0 7 _ . e}.
     /// @prop C13
-    /// @tier thorough
+    /// @tier deep
     /// @mem 9
     /// @feat format radix_format
     /// @bound format F_LTC; input length <= 5 over {0 7 _ . e}
@@ -1061,7 +1061,7 @@ crate::harnesses! {
 
     /// separator-position grammar, flags ILT (all components): strings len <= 5 over {0 7 _ . e}.
     /// @prop C13
-    /// @tier thorough
+    /// @tier deep
     /// @mem 9
     /// @feat format radix_format
     /// @bound format F_ILT; input length <= 5 over {0 7 _ . e}
@@ -1103,7 +1103,7 @@ crate::harnesses! {
 
     /// internal separators in all components: strings len <= 4 over {0 1 9 _ . e + - a}.
     /// @prop C13 C10
-    /// @tier thorough
+    /// @tier deep
     /// @mem 18
     /// @feat format radix_format
     /// @bound format F_I (internal, all components); input length <= 4 over {0 1 9 _ . e + - a}
@@ -1114,7 +1114,7 @@ crate::harnesses! {
 
     /// internal separators in all components: strings len <= 6 over {0 1 9 _ . e + - a}.
     /// @prop C13 C10
-    /// @tier thorough
+    /// @tier deep
     /// @mem 8
     /// @feat format radix_format
     /// @bound format F_I (internal, all components); input length <= 6 over {0 1 9 _ . e + - a}
@@ -1136,7 +1136,7 @@ crate::harnesses! {
 
     /// all separator flags (i/l/t/c, all components): strings len <= 4.
     /// @prop C13 C10
-    /// @tier thorough
+    /// @tier deep
     /// @mem 18
     /// @feat format radix_format
     /// @bound format F_ALL; input length <= 4 over {0 1 9 _ . e + - a}
@@ -1147,7 +1147,7 @@ crate::harnesses! {
 
     /// all separator flags (i/l/t/c, all components): strings len <= 6.
     /// @prop C13 C10
-    /// @tier thorough
+    /// @tier deep
     /// @mem 8
     /// @feat format radix_format
     /// @bound format F_ALL; input length <= 6 over {0 1 9 _ . e + - a}
